@@ -1,21 +1,23 @@
 /* Proof units for C18, linked hash table layer: contracts + reference model (contracts/linked_hash_table.h) + the REAL
  * source/linked_hash_table.c (the intrusive list operations are the real inline functions of linked_list.inl).
- * source/hash_table.c is NOT part of the unit: the hash table is the client view of the header. */
+ * source/hash_table.c is NOT part of the unit: the hash table is the client view of the header.
+ *
+ * Window used by these units (LHT_K = 5): slot 2 holds the entry the operation works on (when there is one); slots 0,1
+ * whatever precedes it, slots 3,4 whatever follows it; each of those may be absent, gaps (hidden entries) may sit between
+ * any two present slots.  That covers every list: the entry may be the front, the back, the only one, next to either
+ * end, or far from both; the list may have any length. */
 #include "contracts/linked_hash_table.h"
 #include "source/linked_hash_table.c"
+#include "units/C18/common.inc"
 
-/* keep addresses taken (function-pointer removal needs candidates) */
-void *verif_keep_c18[] = {(void *)lht_user_dv, (void *)lht_user_dk, (void *)lht_user_hash, (void *)lht_user_eq};
+#define SLOT 2u
+#define OTHERS (((1u << LHT_K) - 1u) & ~(1u << SLOT))
+#define ALL ((1u << LHT_K) - 1u)
 
 static struct aws_linked_hash_table *lht_new_table(void) {
     struct aws_linked_hash_table *T = malloc(sizeof(*T));
     __CPROVER_assume(T != NULL);
     return T;
-}
-static size_t lht_any_index(size_t n) {
-    size_t i = nondet_size_t();
-    __CPROVER_assume(i < n);
-    return i;
 }
 
 /* s_element_destroy(node): the step clear / remove / put-over-existing perform per displaced entry.
@@ -23,174 +25,162 @@ static size_t lht_any_index(size_t n) {
  * untouched), the user's value destructor runs exactly once on its value, the node is released exactly once. */
 void h_element_destroy(void) {
     struct aws_linked_hash_table *T = lht_new_table();
-    lht_build(T, LHT_K, 0);
+    lht_build(T, 1u << SLOT, OTHERS, LHT_NONE);
     lht_check(&g_a);
-    size_t i = lht_any_index(g_a.n);
-    __CPROVER_assume(lht_abs_visible(&g_a, i));
-    g_M = g_a.node[i];
-    lht_abs_remove_at(&g_e, i);
+    __CPROVER_assume(lht_abs_visible(&g_a, SLOT));
+    g_M = g_a.node[SLOT];
     bool has_dv = T->user_on_value_destroy != NULL;
 
     s_element_destroy(g_M);
 
+    lht_abs_remove_at(&g_e, SLOT);
     lht_check_list(&g_e);
-    __CPROVER_assert(g_m.dv_calls == (has_dv ? 1 : 0) && (!has_dv || g_m.dv_last == g_a.val[i]),
-                     "value destructor: exactly once, on the displaced value (never without a destructor)");
-    __CPROVER_assert(g_m.dk_calls == 0, "key destructor: not run by the value path");
-    __CPROVER_assert(g_m.rel_calls == 1 && g_m.rel_last == (const void *)g_a.node[i], "node released exactly once");
-    if (g_e.n == 0) CANARY("last entry unlinked"); else if (i == 0) CANARY("front unlinked"); else if (i == g_e.n) CANARY("back unlinked"); else CANARY("inner entry unlinked");
+    LHT_ASSERT_CALLS(has_dv ? 1 : 0, g_a.val[SLOT], 0, NULL, 1, g_a.node[SLOT], 0);
+    LHT_POSITION_CANARIES(SLOT);
     if (has_dv) CANARY("with value destructor"); else CANARY("without value destructor");
-    if (g_a.hidden > 1000) CANARY("long list");
 }
-
-/* the operation key: arbitrary; g_M := node of the entry it matches.  Returns the index of that entry (LHT_NONE: none).
- * need_neighbours: the operation unlinks the entry, so the window shows both neighbours (choice of window, not of state) */
-static size_t lht_pick_key(const void **key, bool need_neighbours) {
-    *key = lht_any_key();
-    size_t mi = lht_abs_find(&g_a, *key);
-    if (mi != LHT_NONE) {
-        if (need_neighbours) __CPROVER_assume(lht_abs_visible(&g_a, mi));
-        g_M = g_a.node[mi];
-    }
-    return mi;
-}
-#define LHT_ASSERT_CALLS(dv_n, dv_p, dk_n, dk_p, rel_n, rel_p, cal_n)                                                  \
-    do {                                                                                                               \
-        __CPROVER_assert(g_m.dv_calls == (size_t)(dv_n) && ((dv_n) == 0 || g_m.dv_last == (const void *)(dv_p)),       \
-                         "value destructor: exactly once per displaced entry, on its value; otherwise not at all");    \
-        __CPROVER_assert(g_m.dk_calls == (size_t)(dk_n) && ((dk_n) == 0 || g_m.dk_last == (const void *)(dk_p)),       \
-                         "key destructor: exactly once per displaced key, on that key; otherwise not at all");         \
-        __CPROVER_assert(g_m.rel_calls == (size_t)(rel_n) && ((rel_n) == 0 || g_m.rel_last == (const void *)(rel_p)),  \
-                         "node storage: released exactly once per displaced node; otherwise not at all");              \
-        __CPROVER_assert(g_m.calloc_calls == (size_t)(cal_n), "node storage: one allocation per put, none otherwise"); \
-    } while (0)
 
 /* put: new key -> appended at the back; existing key (equal by comparison, same or different pointer) -> old node
  * destroyed once, old key destroyed once iff the pointers differ, the entry re-created at the back under the new key
  * pointer and value; hash table cannot create -> error, nothing changed, the fresh node released */
-void h_put(void) {
+static void put_existing(size_t null_slot) {
     struct aws_linked_hash_table *T = lht_new_table();
-    lht_build(T, LHT_K, 0);
-    lht_check(&g_a);
-    const void *key;
+    lht_build(T, 1u << SLOT, OTHERS, null_slot);
+    const void *key = lht_matching_key(SLOT);
     void *val = lht_any_value();
-    size_t mi = lht_pick_key(&key, true);
-    size_t cell = mi != LHT_NONE ? g_a.slot[mi] : lht_hash_free_cell();
+    __CPROVER_assume(lht_abs_visible(&g_a, SLOT));
+    g_M = g_a.node[SLOT];
     bool has_dv = T->user_on_value_destroy != NULL, has_dk = T->user_on_key_destroy != NULL;
+    bool other_ptr = g_a.key[SLOT] != key;
 
     int r = aws_linked_hash_table_put(T, key, val);
 
     struct aws_linked_hash_table_node *fresh = (struct aws_linked_hash_table_node *)g_m.calloc_last;
-    if (mi != LHT_NONE) {
-        bool other_ptr = g_a.key[mi] != key;
-        lht_abs_remove_at(&g_e, mi);
-        lht_abs_append(&g_e, fresh, key, val, cell);
-        lht_check(&g_e);
-        LHT_ASSERT_CALLS(has_dv ? 1 : 0, g_a.val[mi], (has_dk && other_ptr) ? 1 : 0, g_a.key[mi], 1, g_a.node[mi], 1);
-        if (other_ptr) CANARY("existing key, different pointer"); else CANARY("existing key, same pointer");
-        if (mi + 1 == g_a.n) CANARY("existing entry was the back");
-        if (mi == 0 && g_a.n > 1) CANARY("existing entry was the front");
-        if (g_a.n == 1) CANARY("existing entry was the only one");
-        if (has_dk && other_ptr) CANARY("old key destroyed");
-    } else if (r == AWS_OP_SUCCESS) {
-        lht_abs_append(&g_e, fresh, key, val, cell);
+    __CPROVER_assert(r == AWS_OP_SUCCESS, "put over an existing key succeeds");
+    lht_abs_remove_at(&g_e, SLOT);
+    lht_abs_append(&g_e, fresh, key, val, g_a.cell[SLOT]);
+    lht_check(&g_e);
+    LHT_ASSERT_CALLS(has_dv ? 1 : 0, g_a.val[SLOT], (has_dk && other_ptr) ? 1 : 0, g_a.key[SLOT], 1, g_a.node[SLOT], 1);
+    g_opkey = key;
+    LHT_POSITION_CANARIES(SLOT);
+}
+void h_put_existing(void) {
+    put_existing(LHT_NONE);
+    bool other_ptr = g_a.key[SLOT] != g_opkey, has_dk = g_T->user_on_key_destroy != NULL;
+    if (other_ptr) CANARY("existing key, different pointer"); else CANARY("existing key, same pointer");
+    if (has_dk && other_ptr) CANARY("old key destroyed");
+    if (has_dk && !other_ptr) CANARY("same key pointer: key not destroyed");
+}
+void h_put_existing_null_key(void) {
+    put_existing(SLOT);
+    if (g_opkey == NULL && g_T->user_on_key_destroy != NULL) CANARY("NULL key over NULL key: key destructor not run");
+}
+
+void h_put_new(void) {
+    struct aws_linked_hash_table *T = lht_new_table();
+    lht_build(T, 0, ALL, LHT_NONE);
+    const void *key = lht_new_key();
+    void *val = lht_any_value();
+
+    int r = aws_linked_hash_table_put(T, key, val);
+
+    struct aws_linked_hash_table_node *fresh = (struct aws_linked_hash_table_node *)g_m.calloc_last;
+    if (r == AWS_OP_SUCCESS) {
+        lht_abs_append(&g_e, fresh, key, val, LHT_NEW);
         lht_check(&g_e);
         LHT_ASSERT_CALLS(0, NULL, 0, NULL, 0, NULL, 1);
-        if (g_a.n == 0) CANARY("first entry"); else CANARY("new key appended");
+        if (lht_abs_size(&g_a) == 0) CANARY("first entry"); else CANARY("new key appended");
         if (key == NULL) CANARY("NULL key");
+        if (g_a.hidden > 1000) CANARY("long list");
     } else {
+        __CPROVER_assert(g_m.create_fails, "put of a new key fails only when the hash table cannot create the entry");
         lht_check(&g_a);
         LHT_ASSERT_CALLS(0, NULL, 0, NULL, 1, fresh, 1);
         CANARY("hash table could not create the entry");
     }
 }
 
-void h_find(void) {
+static void find_common(bool existing, bool move) {
     struct aws_linked_hash_table *T = lht_new_table();
-    lht_build(T, LHT_K, 0);
-    const void *key;
-    size_t mi = lht_pick_key(&key, false);
+    lht_build(T, existing ? 1u << SLOT : 0, existing ? OTHERS : ALL, LHT_NONE);
+    const void *key = existing ? lht_matching_key(SLOT) : lht_new_key();
+    if (existing) {
+        if (move) __CPROVER_assume(lht_abs_visible(&g_a, SLOT));
+        g_M = g_a.node[SLOT];
+    }
     void *out = (void *)&g_m; /* not a value */
 
-    int r = aws_linked_hash_table_find(T, key, &out);
+    int r = move ? aws_linked_hash_table_find_and_move_to_back(T, key, &out) : aws_linked_hash_table_find(T, key, &out);
 
     __CPROVER_assert(r == AWS_OP_SUCCESS, "find never fails");
-    __CPROVER_assert(out == (mi != LHT_NONE ? g_a.val[mi] : NULL), "find: the value stored under an equal key, NULL when there is none");
-    lht_check(&g_a);
-    LHT_ASSERT_CALLS(0, NULL, 0, NULL, 0, NULL, 0);
-    if (mi != LHT_NONE) { if (g_a.key[mi] != key) CANARY("found under an equal key with another pointer"); else CANARY("found"); } else CANARY("absent");
-}
-
-void h_find_and_move_to_back(void) {
-    struct aws_linked_hash_table *T = lht_new_table();
-    lht_build(T, LHT_K, 0);
-    const void *key;
-    size_t mi = lht_pick_key(&key, true);
-    void *out = (void *)&g_m;
-
-    int r = aws_linked_hash_table_find_and_move_to_back(T, key, &out);
-
-    __CPROVER_assert(r == AWS_OP_SUCCESS, "find never fails");
-    __CPROVER_assert(out == (mi != LHT_NONE ? g_a.val[mi] : NULL), "find: the value stored under an equal key, NULL when there is none");
-    if (mi != LHT_NONE) {
-        lht_abs_remove_at(&g_e, mi);
-        lht_abs_append(&g_e, g_a.node[mi], g_a.key[mi], g_a.val[mi], g_a.slot[mi]);
-        if (mi + 1 == g_a.n) CANARY("was the back already"); else if (mi == 0) CANARY("front moved to the back"); else CANARY("inner entry moved to the back");
-    } else CANARY("absent");
+    __CPROVER_assert(out == (existing ? g_a.val[SLOT] : NULL), "find: the value stored under an equal key, NULL when there is none");
+    if (existing && move) lht_abs_move_to_back(&g_e, SLOT);
     lht_check(&g_e);
     LHT_ASSERT_CALLS(0, NULL, 0, NULL, 0, NULL, 0);
+    g_opkey = key;
 }
+#define FOUND_CANARIES(what)                                                                                           \
+    do {                                                                                                               \
+        if (g_a.key[SLOT] != g_opkey) CANARY(what " under an equal key with another pointer"); else CANARY(what " under the same pointer"); \
+        LHT_POSITION_CANARIES(SLOT);                                                                                   \
+    } while (0)
+void h_find_existing(void) { find_common(true, false); FOUND_CANARIES("found"); }
+void h_find_absent(void) { find_common(false, false); if (g_opkey == NULL) CANARY("absent NULL key"); else CANARY("absent"); }
+void h_find_and_move_to_back_existing(void) { find_common(true, true); FOUND_CANARIES("found"); }
+void h_find_and_move_to_back_absent(void) { find_common(false, true); if (g_opkey == NULL) CANARY("absent NULL key"); else CANARY("absent"); }
 
 void h_move_node_to_end(void) {
     struct aws_linked_hash_table *T = lht_new_table();
-    lht_build(T, LHT_K, 0);
-    size_t i = lht_any_index(g_a.n);
-    __CPROVER_assume(lht_abs_visible(&g_a, i));
-    g_M = g_a.node[i];
+    lht_build(T, 1u << SLOT, OTHERS, LHT_NONE);
+    __CPROVER_assume(lht_abs_visible(&g_a, SLOT));
+    g_M = g_a.node[SLOT];
 
     aws_linked_hash_table_move_node_to_end_of_list(T, g_M);
 
-    lht_abs_remove_at(&g_e, i);
-    lht_abs_append(&g_e, g_a.node[i], g_a.key[i], g_a.val[i], g_a.slot[i]);
+    lht_abs_move_to_back(&g_e, SLOT);
     lht_check(&g_e);
     LHT_ASSERT_CALLS(0, NULL, 0, NULL, 0, NULL, 0);
-    if (i + 1 == g_a.n) CANARY("was the back already"); else if (i == 0) CANARY("front moved to the back"); else CANARY("inner entry moved to the back");
-    if (g_a.n == 1) CANARY("only entry");
+    LHT_POSITION_CANARIES(SLOT);
 }
 
-void h_remove(void) {
+static void remove_common(bool existing, size_t null_slot) {
     struct aws_linked_hash_table *T = lht_new_table();
-    lht_build(T, LHT_K, 0);
-    const void *key;
-    size_t mi = lht_pick_key(&key, true);
+    lht_build(T, existing ? 1u << SLOT : 0, existing ? OTHERS : ALL, null_slot);
+    const void *key = existing ? lht_matching_key(SLOT) : lht_new_key();
+    if (existing) {
+        __CPROVER_assume(lht_abs_visible(&g_a, SLOT));
+        g_M = g_a.node[SLOT];
+    }
     bool has_dv = T->user_on_value_destroy != NULL, has_dk = T->user_on_key_destroy != NULL;
 
     int r = aws_linked_hash_table_remove(T, key);
 
     __CPROVER_assert(r == AWS_OP_SUCCESS, "remove never fails");
-    if (mi != LHT_NONE) {
-        lht_abs_remove_at(&g_e, mi);
+    if (existing) {
+        lht_abs_remove_at(&g_e, SLOT);
         lht_check(&g_e);
-        LHT_ASSERT_CALLS(has_dv ? 1 : 0, g_a.val[mi], has_dk ? 1 : 0, g_a.key[mi], 1, g_a.node[mi], 0);
-        if (g_a.key[mi] != key) CANARY("removed under an equal key with another pointer"); else CANARY("removed");
-        if (g_a.n == 1) CANARY("table is empty now");
+        LHT_ASSERT_CALLS(has_dv ? 1 : 0, g_a.val[SLOT], has_dk ? 1 : 0, g_a.key[SLOT], 1, g_a.node[SLOT], 0);
     } else {
         lht_check(&g_a);
         LHT_ASSERT_CALLS(0, NULL, 0, NULL, 0, NULL, 0);
-        CANARY("absent: nothing changed");
     }
+    g_opkey = key;
 }
+void h_remove_existing(void) { remove_common(true, LHT_NONE); FOUND_CANARIES("removed"); }
+void h_remove_existing_null_key(void) { remove_common(true, SLOT); if (g_opkey == NULL) CANARY("removed under the NULL key"); LHT_POSITION_CANARIES(SLOT); }
+void h_remove_absent(void) { remove_common(false, LHT_NONE); if (g_opkey == NULL) CANARY("absent NULL key: nothing changed"); else CANARY("absent: nothing changed"); }
 
 void h_get_element_count(void) {
     struct aws_linked_hash_table *T = lht_new_table();
-    lht_build(T, LHT_K, 0);
+    lht_build(T, 0, ALL, LHT_NONE);
+    lht_check(&g_a);
     size_t c = aws_linked_hash_table_get_element_count(T);
     __CPROVER_assert(c == lht_abs_size(&g_a), "count is the size of the reference map");
     if (c == 0) CANARY("empty"); else if (c > LHT_K) CANARY("long list"); else CANARY("short list");
 }
 void h_get_iteration_list(void) {
     struct aws_linked_hash_table *T = lht_new_table();
-    lht_build(T, LHT_K, 0);
+    lht_build(T, 0, ALL, LHT_NONE);
     const struct aws_linked_list *l = aws_linked_hash_table_get_iteration_list(T);
     __CPROVER_assert(l == &T->list, "the iteration list is the table's list");
     CANARY("returned");
@@ -208,7 +198,7 @@ void h_init(void) {
     int r = aws_linked_hash_table_init(T, &g_lht_allocator, lht_user_hash, lht_user_eq, dk, dv, size);
 
     if (r == AWS_OP_SUCCESS) {
-        g_e.n = 0;
+        for (size_t i = 0; i < LHT_S; i++) g_e.present[i] = false;
         g_e.hidden = 0;
         lht_check(&g_e);
         __CPROVER_assert(T->user_on_value_destroy == dv, "value destructor recorded");
@@ -226,20 +216,21 @@ void h_init(void) {
 #endif
 static void lht_clear_common(bool clean_up) {
     struct aws_linked_hash_table *T = lht_new_table();
-    lht_build(T, LHT_CLEAR_N, LHT_PERMUTE_CELLS);
+    lht_build(T, 0, (1u << LHT_CLEAR_N) - 1u, LHT_NONE);
+    lht_clear_order(LHT_CLEAR_N);
     __CPROVER_assume(g_a.hidden == 0);
     lht_check(&g_a);
     bool has_dv = T->user_on_value_destroy != NULL, has_dk = T->user_on_key_destroy != NULL;
-    size_t w = lht_any_index(g_a.n > 0 ? g_a.n : 1); /* an arbitrary entry to watch */
-    size_t same_val = 0, same_key = 0;
-    if (g_a.n > 0) {
+    size_t n = lht_abs_size(&g_a);
+    size_t w = nondet_size_t(); /* an arbitrary entry to watch */
+    __CPROVER_assume(w < LHT_CLEAR_N);
+    size_t same_val = 0;
+    if (g_a.present[w]) {
         g_m.dv_watch = g_a.val[w];
         g_m.dk_watch = g_a.key[w];
         g_m.rel_watch = g_a.node[w];
-        for (size_t i = 0; i < LHT_K; i++) {
-            if (i < g_a.n && g_a.val[i] == g_a.val[w]) same_val++;
-            if (i < g_a.n && g_a.key[i] == g_a.key[w]) same_key++;
-        }
+        for (size_t i = 0; i < LHT_K; i++)
+            if (g_a.present[i] && g_a.val[i] == g_a.val[w]) same_val++;
     }
     if (clean_up) aws_linked_hash_table_clean_up(T); else aws_linked_hash_table_clear(T);
 
@@ -247,19 +238,20 @@ static void lht_clear_common(bool clean_up) {
     size_t live = 0;
     for (size_t s = 0; s < LHT_S; s++) if (g_m.live[s]) live++;
     __CPROVER_assert(live == 0, "lookup: no key is found any more");
-    __CPROVER_assert(g_m.dv_calls == (has_dv ? g_a.n : 0) && g_m.dk_calls == (has_dk ? g_a.n : 0) && g_m.rel_calls == g_a.n,
+    __CPROVER_assert(g_m.dv_calls == (has_dv ? n : 0) && g_m.dk_calls == (has_dk ? n : 0) && g_m.rel_calls == n,
                      "destructors and release: one call per entry in total");
-    if (g_a.n > 0) {
+    if (g_a.present[w]) {
         __CPROVER_assert(g_m.dv_hits == (has_dv ? same_val : 0), "value destructor: exactly once per entry holding the watched value");
-        __CPROVER_assert(g_m.dk_hits == (has_dk ? same_key : 0), "key destructor: exactly once per entry holding the watched key");
+        __CPROVER_assert(g_m.dk_hits == (has_dk ? 1 : 0), "key destructor: exactly once on the watched key");
         __CPROVER_assert(g_m.rel_hits == 1, "node storage: the watched node released exactly once");
     }
     if (!clean_up) {
-        g_e.n = 0;
+        for (size_t i = 0; i < LHT_S; i++) g_e.present[i] = false;
         lht_check(&g_e);
     }
-    if (g_a.n == 0) CANARY("was empty"); else if (g_a.n == LHT_CLEAR_N) CANARY("largest list of the bound"); else CANARY("some entries");
-    if (g_a.n > 1 && g_a.slot[0] > g_a.slot[1]) CANARY("destroyed out of list order");
+    if (n == 0) CANARY("was empty"); else if (n == LHT_CLEAR_N) CANARY("largest list of the bound"); else CANARY("some entries");
+    if (n == LHT_CLEAR_N && g_m.order[0] == 1) CANARY("inner entry destroyed first");
+    if (n == LHT_CLEAR_N && g_m.order[0] == LHT_CLEAR_N - 1) CANARY("back destroyed first");
 }
 void h_clear(void) { lht_clear_common(false); }
 void h_clean_up(void) { lht_clear_common(true); }
